@@ -76,8 +76,8 @@ PROPS = {
         design_ref="DESIGN.md 5/C08",
         module="Bita.Props.C08",
         level="proof",
-        required_theorems=["http_resume", "http_items_exact_prefix", "fetchRun_requests", "io_reader_sound", "io_reader_complete", "read_at_exact", "http_read_at_requests", "http_surplus_irrelevant"],
-        suites=dict(quick=[("l1", "c08-http"), ("l1", "c08-io")], thorough=[("l1", "c08-http"), ("l1", "c08-io")]),
+        required_theorems=["http_resume", "http_items_exact_prefix", "fetchRun_requests", "io_reader_sound", "io_reader_complete", "read_at_exact", "http_read_at_requests", "http_surplus_irrelevant", "clone_completes_within_the_configured_retry_count"],
+        suites=dict(quick=[("l1", "c08-http"), ("l1", "c08-io"), ("l1", "opts")], thorough=[("l1", "c08-http"), ("l1", "c08-io"), ("l1", "opts")]),
         rule="HTTP: one run of two chunks with every cut offset x budgets x one/two cuts x cut/clean-end (exhaustive) plus "
              "random chunk lists, budgets 0..3 and random scripts of refuse/cut/early-end/full; local: random range lists "
              "(adjacent, gapped, unordered, beyond EOF) under random scripts of short reads, Pending, errors and empty reads; "
